@@ -431,6 +431,32 @@ fn error_paths(resp: &J) -> Vec<String> {
         .unwrap_or_default()
 }
 
+/// (line, column) pairs of every error, in response order
+fn error_locations(resp: &J) -> Vec<Vec<(usize, usize)>> {
+    resp.get("errors")
+        .and_then(|e| e.as_array())
+        .map(|errs| {
+            errs.iter()
+                .map(|e| {
+                    e.get("locations")
+                        .and_then(|l| l.as_array())
+                        .map(|l| {
+                            l.iter()
+                                .map(|lc| {
+                                    (
+                                        lc.get("line").and_then(|v| v.as_u64()).unwrap_or(0) as usize,
+                                        lc.get("column").and_then(|v| v.as_u64()).unwrap_or(0) as usize,
+                                    )
+                                })
+                                .collect()
+                        })
+                        .unwrap_or_default()
+                })
+                .collect()
+        })
+        .unwrap_or_default()
+}
+
 fn is_prefix(prefix: &str, path: &str) -> bool {
     prefix.is_empty()
         || path == prefix
@@ -630,6 +656,7 @@ pub fn check_c26(case: &Case, p: &Parsed, trace: bool) -> C26Outcome {
             early_exit,
             introspection: case.introspection,
             errors: vec![],
+            error_locs: vec![],
             calls: vec![],
             positions: BTreeMap::new(),
             nullified: Default::default(),
@@ -772,6 +799,15 @@ pub fn check_c26(case: &Case, p: &Parsed, trace: bool) -> C26Outcome {
                             format!("at {k}: real {} vs reference {}", c.args, fc.args),
                         );
                     }
+                    if fc.sels != c.sels {
+                        return viol(
+                            "field_selections_differ",
+                            format!(
+                                "ResolveInfo::field_selections() differs from the reference's merged group | at {k}: real {:?} vs reference {:?} (start offsets of the field names)",
+                                c.sels, fc.sels
+                            ),
+                        );
+                    }
                 }
             }
         }
@@ -820,6 +856,36 @@ pub fn check_c26(case: &Case, p: &Parsed, trace: bool) -> C26Outcome {
                         b.len()
                     ),
                 );
+            }
+        }
+        // 9. locations ("with path and locations filled in"): every error is located at the name
+        //    of the first field of its group; argument-coercion errors at most once, not before it
+        {
+            let mut expected: Vec<(&String, &model::ErrLoc, bool)> =
+                m.errors.iter().zip(&m.error_locs).map(|(p, l)| (p, l, false)).collect();
+            for (path, locs) in error_paths(&resp).iter().zip(error_locations(&resp)) {
+                let hit = expected.iter_mut().find(|(p, l, used)| {
+                    !*used
+                        && *p == path
+                        && match l {
+                            model::ErrLoc::FieldName(line, col) => locs == vec![(*line, *col)],
+                            model::ErrLoc::Argument(line, col) => {
+                                locs.len() <= 1 && locs.iter().all(|lc| *lc >= (*line, *col))
+                            }
+                            model::ErrLoc::Unknown => true,
+                        }
+                });
+                match hit {
+                    Some(e) => e.2 = true,
+                    None => {
+                        let want: Vec<&model::ErrLoc> =
+                            expected.iter().filter(|(p, _, _)| *p == path).map(|e| e.1).collect();
+                        return viol(
+                            "error_location_differs",
+                            format!("error location is not that of the field it belongs to | path `{path}`: reported {locs:?}, reference {want:?}"),
+                        );
+                    }
+                }
             }
         }
         None
